@@ -197,6 +197,9 @@ def check_syntax(spec, ctx):
     rows = doc["rows"]
     exp = expected_rows(o, shift, chunk_mode=bool(spec["chunk_mode"] and chunk))
     wild = {(t, s_, e_, st_) for t, s_, e_, st_, ph, *_ in exp if ph == "*"}
+    # rows are matched by coordinates: another CDS with the very same coordinates as a wildcard row cannot be told apart from
+    # it in the file, so its phase is not compared either
+    exp = [(t, s_, e_, st_, "*" if (t, s_, e_, st_) in wild else ph, *rest) for t, s_, e_, st_, ph, *rest in exp]
     for r in rows:
         if (r["type"], r["start"] - 1, r["end"], r["strand"]) in wild and r["phase"] in ("0", "1", "2"):
             r["phase_cmp"] = "*"
